@@ -1610,10 +1610,12 @@ theorem checkChannelsMatch_ok_iff (old new : ChanCfg) (eom : Bool) :
   generalize (get old "fixed_retarget_t" == get new "fixed_retarget_t") = a6
   generalize (get old "clock_period" == get new "clock_period") = a7
   generalize (get old "min_retarget_interval" == get new "min_retarget_interval") = a8
+  generalize (get old "min_duration" == get new "min_duration") = a10
+  generalize (get old "phase_jump_time" == get new "phase_jump_time") = a11
   generalize new.eom.isSome = a9
   generalize (checkRetarget old || checkRetarget new) = g
   cases eom <;> cases a1 <;> cases a2 <;> cases a3 <;> cases a4 <;> cases a5 <;> cases a6 <;> cases a7 <;>
-    cases a8 <;> cases a9 <;> cases g <;> decide
+    cases a8 <;> cases a9 <;> cases a10 <;> cases a11 <;> cases g <;> decide
 
 /-! ### device-level consequences -/
 
